@@ -893,7 +893,9 @@ func (h *sentPacketHandler) OnLossDetectionTimeout(now monotime.Time) error {
 	// However, there's no way to reset the timer in the connection.
 	// When OnLossDetectionTimeout is called, we therefore need to make sure that there are
 	// actually packets outstanding.
-	if h.bytesInFlight == 0 && !h.peerCompletedAddressValidation {
+	// This needs to be the same condition as the one used to arm the timer in getPTOTimeAndSpace:
+	// 0-RTT packets might be in flight, but no PTO timer is armed for them before the handshake is confirmed.
+	if !h.handshakeConfirmed && !h.hasOutstandingCryptoPackets() && !h.peerCompletedAddressValidation {
 		h.ptoCount++
 		h.numProbesToSend++
 		if h.initialPackets != nil {
